@@ -126,7 +126,10 @@ def ev(sys, switches, e, ent, sim, period, parameters):
         return numpy.full(pop.count, e[1])
     if tag == "dep":
         q = apply_ptrans(e[2], period)
-        return pop(var_name(sys, e[1]), q, options_of(e[3])) + 0
+        options = options_of(e[3])
+        if e[3] == "both" and e[1] % 2 == 1:
+            options = options[::-1]      # both orders of the two options are exercised
+        return pop(var_name(sys, e[1]), q, options) + 0
     if tag == "bin":
         a = ev(sys, switches, e[2], ent, sim, period, parameters)
         b = ev(sys, switches, e[3], ent, sim, period, parameters)
